@@ -452,11 +452,23 @@ def gen_corr_all():
     p = os.path.join(cdir, "All.lean")
     if not os.path.exists(p) or open(p).read() != body:
         open(p, "w").write(body)
+    # op names must be unique across handlers (the driver dispatches on the first handler that knows the op)
+    seen = {}
+    for m in mods:
+        txt = open(os.path.join(cdir, m + ".lean")).read()
+        for line in re.findall(r'^\s*\| ("[A-Za-z0-9_]+"(?:\s*\|\s*"[A-Za-z0-9_]+")*)\s*=>', txt, flags=re.M):
+            for op in re.findall(r'"([A-Za-z0-9_]+)"', line):
+                if op in seen and seen[op] != m:
+                    raise Missing(f"correspondence op '{op}' is handled by both Corr/{seen[op]}.lean and Corr/{m}.lean")
+                seen[op] = m
 
 
 def main():
     failed = []
-    gen_corr_all()
+    try:
+        gen_corr_all()
+    except Missing as e:
+        failed.append(f"gen_corr_all: {e}")
     for g in GENERATORS + load_plugins():
         try:
             g()
